@@ -151,6 +151,25 @@ pub fn run(ctx: &mut Ctx) {
     if !ctx.thorough() {
         directed = directed.into_iter().enumerate().filter(|(k, _)| k % 3 == 0).map(|(_, d)| d).collect();
     }
+    // one direction ended at once, and the receiver of the other takes part of a chunk and then nothing, for good, while the
+    // sender is silent too: such a tunnel is idle - the wait for the sink is under the idle timer like the wait for the source
+    for t in [100u64, 1000, 40] {
+        for (first_quota, chunk_len, more_chunks) in [(3usize, 10usize, false), (0, 4, false), (1, 2, true), (5, 5000, false)] {
+            for side in 0..2 {
+                let plain_sink = SinkScript { quotas: vec![], writable_delays: vec![], write_err_at: None, writable_err_at: None, eof_err: false, flush_err: false, flush_delay: 0 };
+                let quiet_src = SrcScript { events: vec![(0, SrcEv::Eof)], consume_err_at: None };
+                let mut ev = vec![(t / 2, SrcEv::Chunk((0..chunk_len).map(|k| k as u8).collect()))];
+                if more_chunks {
+                    ev.push((t / 4, SrcEv::Chunk(vec![9, 9])));
+                    ev.push((t / 4, SrcEv::Eof));
+                }
+                let stalled_src = SrcScript { events: ev, consume_err_at: None };
+                let stalled_sink = SinkScript { quotas: vec![first_quota], writable_delays: vec![100_000 * t], ..plain_sink.clone() };
+                let (l, r) = if side == 0 { ((quiet_src, plain_sink), (stalled_src, stalled_sink)) } else { ((stalled_src, stalled_sink), (quiet_src, plain_sink)) };
+                directed.push((t, l, r));
+            }
+        }
+    }
     let n_directed = directed.len();
     let mut directed = directed.into_iter();
     for i in 0..n + n_directed {
